@@ -126,8 +126,20 @@ func isUntypedLit(e Expr) bool {
 	case *EBin:
 		switch x.Op {
 		case "+", "-", "*", "/", "%", "<<", ">>", "&", "|", "^":
-			return isUntypedLit(x.X) && isUntypedLit(x.Y)
+			// constant folding is integer-only: an operation on float literals is evaluated as an operation
+			return isUntypedLit(x.X) && isUntypedLit(x.Y) && !isFloatLit(x.X) && !isFloatLit(x.Y)
 		}
+	}
+	return false
+}
+
+// isFloatLit: a (possibly negated) decimal floating-point literal such as 0.673
+func isFloatLit(e Expr) bool {
+	switch x := e.(type) {
+	case *ELit:
+		return strings.Contains(x.Val, ".")
+	case *EUn:
+		return x.Op == "-" && isFloatLit(x.X)
 	}
 	return false
 }
@@ -214,6 +226,14 @@ func (env *Env) eval(e Expr, hint types.Type) Val {
 			}
 			return vc.zero(hint)
 		}
+		if isFloatLit(x) {
+			// float literal: takes the float type of its context (float64 by default), exact rounding as in Go
+			t := hint
+			if ni, ok := numOf(t); t == nil || !ok || !ni.float {
+				t = types.Typ[types.Float64]
+			}
+			return vc.constVal(constant.MakeFromLiteral(x.Val, token.FLOAT, 0), t)
+		}
 		return env.litOf(litValue(x), hint)
 	case *EStr:
 		return Val{T: types.Typ[types.String], C: []string{vc.strLit(x.Val)}}
@@ -237,6 +257,9 @@ func (env *Env) eval(e Expr, hint types.Type) Val {
 	case *ECall:
 		return env.evalCall(x, hint)
 	case *EUn:
+		if isFloatLit(x) {
+			return env.eval(&ELit{"-" + x.X.(*ELit).Val}, hint)
+		}
 		if isUntypedLit(x) {
 			return env.litOf(litValue(x), hint)
 		}
@@ -738,6 +761,25 @@ func (env *Env) evalQuant(x *EQuant) Val {
 		q = "forall"
 	}
 	b := body.C[0]
+	// int mode: a bound variable of a sized integer type narrower than 64 bits ranges over that type only
+	// (in bv mode the sort already says so); without the guard `forall f uint32` would also speak about negative f.
+	if vc.mode == ModeInt {
+		var guards []string
+		for _, qv := range x.Vars {
+			t := env.resolveType(qv.Type)
+			if ni, ok := numOf(t); ok && !ni.mathI && !ni.float && ni.bits < 64 {
+				guards = append(guards, vc.inRange("q_"+qv.Name, ni.bits, ni.signed))
+			}
+		}
+		if len(guards) > 0 {
+			g := andAll(guards...)
+			if x.Forall {
+				b = "(=> " + g + " " + b + ")"
+			} else {
+				b = "(and " + g + " " + b + ")"
+			}
+		}
+	}
 	if len(x.Pats) > 0 {
 		var ps []string
 		for _, pat := range x.Pats {
@@ -974,10 +1016,15 @@ func (env *Env) evalCall(x *ECall, hint types.Type) Val {
 
 func (env *Env) convertTo(arg Expr, t types.Type) Val {
 	vc := env.vc
-	if isUntypedLit(arg) {
+	if isUntypedLit(arg) && !isFloatLit(arg) {
 		return env.litOf(litValue(arg), t)
 	}
-	v := env.eval(arg, nil)
+	var v Val
+	if isFloatLit(arg) {
+		v = env.eval(arg, t)
+	} else {
+		v = env.eval(arg, nil)
+	}
 	if _, ok := numOf(v.T); ok {
 		if _, ok := numOf(t); ok {
 			return Val{T: t, C: []string{vc.convertNum(v.C[0], v.T, t)}}
@@ -1057,7 +1104,9 @@ func (vc *VC) declareSpecFn(sf *SpecFn) string {
 	}
 	rt := env.resolveType(sf.Result)
 	rs := vc.sort1(rt)
-	if sf.Body == nil || vc.opaque[sf.Pkg+"."+sf.Name] {
+	if sf.Body == nil || vc.opaque[sf.Pkg+"."+sf.Name] || (sf.BVOnly && vc.mode == ModeInt) {
+		// (a "spec bv fn" is deliberately opaque in int mode: whatever is proved about an uninterpreted
+		// function also holds of the defined one, so this is a sound abstraction)
 		if len(sorts) == 0 {
 			vc.declare(name, "(declare-const "+name+" "+rs+")")
 		} else {
